@@ -392,3 +392,52 @@ def cqueue_finished_rules(ctx):
                    f.where(sorted(fin)[0]))
         ctx.mo_floor(CQ + ".cnt", ("fetch_sub",), "REL", "cqueue/cnt-dec-release", "the Done push is visible to the poller that sees the decrement", only_in=r"<may::cqueue::EventSender as std::ops::Drop>::drop")
         ctx.mo_floor(CQ + ".cnt", ("load",), "ACQ", "cqueue/cnt-load-acquire", "", only_in=re.escape(PL))
+
+# ------------------------------------------------------------------------------------------------
+# queue index commit rules (C03, C01: the global run queue must not skip or repeat a coroutine)
+
+def queue_commit_rules(ctx):
+    MQ = "may_queue::mpsc"; SQ = "may_queue::spsc"
+    BP = MQ + "::Queue::bulk_pop"; POP = MQ + "::Queue::pop"
+    # the committed pop index equals the end of the range that was copied out (an index jumped past
+    # unread slots loses them; an index short of the copied range duplicates them)
+    def same_origin_rule(fid, copy_rx, store_on, store_any, inst, what):
+        f = ctx.fn("R-ENUM", fid, inst)
+        if f is None: return
+        ends = [simplify(trace_operand(f, f.node(pt)["args"][2])) for pt in sorted(ctx.an.sites(f, Call(copy_rx, transitive=False), "must"))]
+        stores = [(pt, simplify(trace_operand(f, f.node(pt)["args"][1]))) for pt in sorted(ctx.an.sites(f, Call(A("store"), on=store_on, on_any=store_any, transitive=False), "must"))]
+        if not ends or not stores:
+            ctx.missing("R-ENUM", fid, inst, "copy_to_bulk (%d) / index store (%d) not found" % (len(ends), len(stores))); return
+        ok = all(any(v == e for e in ends) for _, v in stores)
+        ctx.ob("R-ENUM", fid, inst, ok, "%s: the index committed is exactly the `end` of the copied range" % what if ok else
+               "%s commits an index (%s) that is not the end of the range it copied out (%s): slots are skipped (values lost) or re-read (duplicated)" %
+               (what, [fmt_origin(v) for _, v in stores], [fmt_origin(e) for e in ends]), f.where(stores[0][0]))
+    same_origin_rule(BP, re.escape(MQ) + "::BlockNode::copy_to_bulk", MQ + "::Position.index", None, "mpsc/bulk-commit-equals-range", "mpsc bulk_pop")
+    same_origin_rule(SQ + "::Queue::bulk_pop", re.escape(SQ) + "::BlockNode::copy_to_bulk", SQ + "::Position.index", SQ + "::Queue.head", "spsc/bulk-commit-equals-range", "spsc bulk_pop")
+    def plus_one_rule(fid, store_on, store_any, inst, what):
+        f = ctx.fn("R-ENUM", fid, inst)
+        if f is None: return
+        ok = False; site = None
+        for pt in sorted(ctx.an.sites(f, Call(A("store"), on=store_on, on_any=store_any, transitive=False), "must")):
+            v = simplify(trace_operand(f, f.node(pt)["args"][1])); site = pt
+            while v[0] == "field" and v[2] == "(tuple)": v = simplify(v[1])
+            if v[0] == "bin" and v[1].startswith("Add") and is_const(1)(simplify(v[3])) and simplify(v[2])[0] == "call": ok = True
+            if v[0] == "call" and (v[2] or "").endswith("wrapping_add"):
+                t = f.term(v[1]); ok = is_const(1)(simplify(trace_operand(f, t["args"][1])))
+        ctx.ob("R-ENUM", fid, inst, ok, "%s commits index + 1" % what if ok else "%s no longer commits exactly index + 1" % what, f.where(site))
+    plus_one_rule(POP, MQ + "::Position.index", None, "mpsc/pop-commit-plus-one", "mpsc pop")
+    plus_one_rule(SQ + "::Queue::pop", SQ + "::Position.index", SQ + "::Queue.head", "spsc/pop-commit-plus-one", "spsc pop")
+    plus_one_rule(SPUSH if False else SQ + "::Queue::push", SQ + "::Position.index", SQ + "::Queue.tail", "spsc/push-commit-plus-one", "spsc push")
+    # the block-boundary test uses the committed index
+    f = ctx.fn("R-ENUM", BP, "mpsc/bulk-boundary-test-uses-commit")
+    if f is not None:
+        stores = [simplify(trace_operand(f, f.node(pt)["args"][1])) for pt in sorted(ctx.an.sites(f, Call(A("store"), on=MQ + "::Position.index", transitive=False), "must"))]
+        ok = False
+        for bi in range(f.nblocks()):
+            if f.is_cleanup(bi) or f.term(bi)["t"] != "sw": continue
+            o = switch_info(f, bi)
+            if o[0] == "bin" and o[1] == "Eq" and is_const(0)(simplify(o[3])):
+                a = simplify(o[2])
+                if a[0] == "bin" and a[1] == "BitAnd" and any(simplify(a[2]) == v for v in stores): ok = True
+        ctx.ob("R-ENUM", BP, "mpsc/bulk-boundary-test-uses-commit", ok, "the block is retired iff the committed index is block-aligned" if ok else
+               "mpsc bulk_pop's block-boundary test is not on the index it commits", f.where())
